@@ -263,6 +263,17 @@ func (c *Client) Signer(ctx context.Context, privateKeyId, publicKeyId string) (
 	if err != nil {
 		return nil, fmt.Errorf("invalid public key material: %w", err)
 	}
+	// The key material must be of the algorithm announced by the key attributes: Sign relies on it.
+	switch signer.publicKey.(type) {
+	case *rsa.PublicKey:
+		if signer.alg != kmip.CryptographicAlgorithmRSA {
+			return nil, fmt.Errorf("invalid public key material: got an RSA key for algorithm %s", ttlv.EnumStr(signer.alg))
+		}
+	case *ecdsa.PublicKey:
+		if signer.alg != kmip.CryptographicAlgorithmEC && signer.alg != kmip.CryptographicAlgorithmECDSA {
+			return nil, fmt.Errorf("invalid public key material: got an EC key for algorithm %s", ttlv.EnumStr(signer.alg))
+		}
+	}
 
 	return signer, nil
 }
